@@ -12,6 +12,7 @@ import io
 
 from .. import core, docgen, gen, lib
 from . import c03
+from ..ref import pathref
 
 PROPERTY = "C10"
 RULE = (
@@ -30,7 +31,7 @@ ASSUMPTIONS = [
 ]
 TOLERANCES = {"geometry": "1e-12 * S"}
 FAULT_TYPES = ["transform", "paint", "length", "points", "viewBox", "d", "stroke-width", "href-missing", "href-self", "href-ancestor", "href-cycle", "svg-zero"]
-MANDATORY_LABELS = {"quick": ["fault:%s" % f for f in FAULT_TYPES] + ["on:shape", "on:container", "on:use", "faults:1", "faults:2+"]}
+MANDATORY_LABELS = {"quick": ["fault:%s" % f for f in FAULT_TYPES] + ["on:shape", "on:container", "on:use", "faults:1", "faults:2+", "offender-path-rendered"]}
 MANDATORY_LABELS["thorough"] = MANDATORY_LABELS["quick"]
 
 BAD = {
@@ -39,7 +40,7 @@ BAD = {
     "length": ["abc", "1e", "--5", "5 5", "1e999", "", "12qq", "NaN", "inf", "-", ".", "1..2", "5%%"],
     "points": ["1,2 3", "a", "1,2,,3", "", "1 2 3 4 5", "1e999,0 2,2", ",,,", "1,2;3,4"],
     "viewBox": ["0 0 0 0", "a b c d", "1 2 3", "", "0 0 -5 -5", "0,0,10", "1e999 0 1 1", "0 0 10 0"],
-    "d": ["M 1 2 L", "L 5 5", "M 1 1 A 1 1 0 2 0 3 3", "M0,0 h", "z", "Q 1 1 2 2", "M 1 2 C 3", "M 1 2 X 4", "h 5", "a 1 1 0 0 1 5 5", "M 1", "t 1 1", "M0,0 A 1 z", "m", "M 1 2 L 3 4 5", "é", "M 1e999 0 L 1 1"],
+    "d": ["M 0,0 L 10,10 z 5", "M 0,0 1 z", "M 3,3 L 5,5 L 9,1 L", "M 1,1 C 1,1 2,2 z 3", "M0,0 Q 1,1 z 7 L 2,2", "M 2,2 L 4,4 T", "M 1 2 L", "L 5 5", "M 1 1 A 1 1 0 2 0 3 3", "M0,0 h", "z", "Q 1 1 2 2", "M 1 2 C 3", "M 1 2 X 4", "h 5", "a 1 1 0 0 1 5 5", "M 1", "t 1 1", "M0,0 A 1 z", "m", "M 1 2 L 3 4 5", "é", "M 1e999 0 L 1 1"],
     "stroke-width": ["abc", "-1", "1e999", "", "1 2", "5%%"],
 }
 LENGTH_ATTRS = {"rect": ["x", "y", "width", "height", "rx", "ry"], "circle": ["cx", "cy", "r"], "ellipse": ["cx", "cy", "rx", "ry"], "line": ["x1", "y1", "x2", "y2"], "use": ["x", "y"], "svg": ["x", "y", "width", "height"]}
@@ -90,6 +91,15 @@ def decode(d):
         else:
             attr = kind
         faults.append([n["id"], attr, d.choice(BAD[kind]), kind])
+        if kind == "d" and d.bool():
+            # two malformed paths in one document: whatever state parsing the first one leaves behind (an error raised
+            # in the middle of a command, after a close, after a dangling letter) must not reach the second
+            others = [m for m, _ in nodes if m["tag"] == "path" and m is not n]
+            if others:
+                m = d.choice(others)
+                first, second = (n, m) if d.bool() else (m, n)
+                faults[-1] = [first["id"], "d", d.choice(BAD["d"][:6]), "d"]
+                faults.append([second["id"], "d", d.choice(BAD["d"][:8]), "d"])
     # a nested svg disabled by a zero size, followed by siblings that use percentages: the state the parser keeps
     # per viewport (size, inherited values) must come back exactly as it was before the disabled element
     nested = [(n, parents) for n, parents in nodes if n["tag"] == "svg" and parents and "viewBox" in n["attrs"]]
@@ -241,6 +251,26 @@ def check(case):
     clean = remove_offenders(doc, offenders)
     ctext = to_text(clean)
     want = [snapshot(e) for e in c03.shapes_of(c03.parse(clean, True, ctext))]
+    # an offending path is skipped or rendered up to the error: if it is rendered, what it draws is the longest valid
+    # prefix of its data (segment kinds in order) - nothing another element of the document left behind
+    single = {}
+    for nid, attr, value, kind in faults:
+        single.setdefault(nid, []).append((attr, kind, value))
+    if svg is not None:
+        for e in c03.shapes_of(svg):
+            fl = single.get(e.id)
+            if not fl or len(fl) != 1 or fl[0][1] != "d" or not isinstance(e, se.Path):
+                continue
+            value = fl[0][2]
+            ref = pathref.interpret(value)
+            if value.lstrip()[:1] not in ("M", "m") or ref.nonfinite:
+                continue  # path fragments (C09's known findings) and overflowing numbers
+            have = "".join(lib.kind_of(sg) for sg in e)
+            expect = "".join(sg["k"] for sg in ref.segments)
+            o.label("offender-path-rendered")
+            if have != expect:
+                return o.violation("offender-path:not-the-valid-prefix", "path %r with d=%r is rendered as %s (%s), the valid prefix of its data is %s\n  faults: %r\n  document: %s" % (
+                    e.id, value, have, e.d(), expect, faults, text))
     i = 0
     for w in want:
         while i < len(got) and not same(got[i], w):
